@@ -1,6 +1,6 @@
 (* C11 — Codec round trip for protocol types. Property theorems only (proofs in Proofs/Codec*.v). *)
 From JamV Require Import Base.Bytes Model.NatCodec Model.Codec Model.JamTypes
-  Proofs.CodecOrdP Proofs.CodecP Proofs.CodecCanonP Proofs.JamTypesP.
+  Proofs.CodecOrdP Proofs.CodecP Proofs.CodecCanonP Proofs.CodecFastP Proofs.JamTypesP.
 From Coq Require Import Permutation.
 Local Open Scope N_scope.
 
@@ -48,6 +48,16 @@ Print Assumptions C11_frame_roundtrip.
 Theorem C11_protocol_descriptors_wf : forall p, pL p < two64 -> forallb wf_desc (all_descs p) = true.
 Proof. exact all_descs_wf. Qed.
 Print Assumptions C11_protocol_descriptors_wf.
+
+(* the decoder that is extracted to OCaml and run against the Go code (length tests that look only at
+   the bytes they need) is the decoder of the theorems above *)
+Theorem C11_extracted_decoder : forall d bs, decf d bs = dec d bs.
+Proof. exact decf_eq. Qed.
+Print Assumptions C11_extracted_decoder.
+
+Theorem C11_extracted_frame_decoder : forall d bs, decf_frame d bs = dec_frame d bs.
+Proof. exact decf_frame_eq. Qed.
+Print Assumptions C11_extracted_frame_decoder.
 
 (* ---- non-vacuity ---- *)
 Definition ex_ctx : val :=
